@@ -302,3 +302,39 @@ def gen_clustercfg(seed, n):
         lines = ["C %d 0 %s" % (c, " ".join(gen.hx(a) for a in cmd)) for c, cmd in prog]
         items.append(("c20cfg_%d_%d" % (seed, i), text, lines))
     return items
+
+
+# ---------------------------------------------------------------- pipelining
+def gen_pipeline(seed, n, prefix="c20pl", blocking=0.35):
+    """a pipelining client: between PIPE and FLUSH all commands of a connection go out in one write
+    and the replies are read afterwards.  Blocks pipeline SELECT i followed by 1-3 data commands
+    (and further SELECTs), on several connections with different selections; the deterministic
+    variant queues them behind a blocking pop with a short timeout.  Pipelining must be
+    unobservable: replies and dumps are those of the sequential per-connection model."""
+    r = random.Random(seed * 1103515245 % (2 ** 31) + 12345)
+    cases = []
+    for i in range(n):
+        dbs = r.choice([2, 3, 16])
+        c = gen.Case("%s_%d_%d_n%d" % (prefix, seed, i, dbs), dbs)
+        setup_markers(c, dbs)
+        conns = list(range(1, r.randrange(2, 5)))
+        for blk in range(r.randrange(1, 5)):
+            c.lines.append("PIPE")
+            for cn in r.sample(conns, r.randrange(1, len(conns) + 1)):
+                if r.random() < blocking:
+                    c.cmd([r.choice([b"blpop", b"brpop"]), b"nolist", b"1"], conn=cn)
+                for _ in range(r.randrange(1, 3)):
+                    idx = r.randrange(dbs)
+                    c.cmd([gen.randcase(r, b"select"), str(idx).encode() if r.random() < 0.9 else sel_arg(r, dbs)], conn=cn)
+                    for _ in range(r.randrange(1, 4)):
+                        c.cmd(r.choice([[b"set", b"k", b"c%d-b%d" % (cn, blk)], [b"get", b"whoami"], [b"get", b"k"],
+                                        [b"rpush", b"l%d" % cn, b"x"], [b"incr", b"n"], [b"exists", b"k", b"whoami"],
+                                        [b"append", b"k", b"+"], [b"del", b"k"]]), conn=cn)
+            c.lines.append("FLUSH")
+            for cn in conns:
+                c.cmd([b"get", b"whoami"], conn=cn)
+                if r.random() < 0.5:
+                    c.cmd([b"get", b"k"], conn=cn)
+            c.dump()
+        cases.append(c)
+    return cases
